@@ -76,7 +76,7 @@ def make_cases(tier, seed):
     N = 120 if tier == "quick" else 900
     cases = []
     for k in range(N):
-        n = r.choice([1, 2, 3, 5, 8, 12, 16, 20, 24]) if tier == "quick" else r.choice([1, 2, 3, 5, 8, 12, 16, 24, 32, 48, 60])
+        n = r.choice([1, 2, 3, 4, 5, 6, 8, 10, 12, 16]) if tier == "quick" else r.choice([1, 2, 3, 5, 8, 12, 16, 20, 24, 32])
         rows = gen.spd_mmatrix(r, n) if r.random() < 0.75 else gen.nonsym_dd(r, n, density=min(0.5, 3.0 / max(n, 1)))
         if r.random() < 0.3: rows = gen.shuffle_rows(r, rows)      # amg sorts on entry
         co = ac.COARSENINGS[k % 4]; rx = ac.MODEL_RELAX[(k // 4) % 3]
